@@ -1,6 +1,7 @@
 import SaVerif.Lemmas.Pratt
 import SaVerif.Lemmas.ExprCore
 import SaVerif.Lemmas.ExprBuild
+import SaVerif.Lemmas.ExprSem
 import SaVerif.Model.Expr
 import SaVerif.Model.ExprGrammar
 import SaVerif.Model.ExprEval
@@ -253,6 +254,71 @@ theorem api_tree_read_back_mysql (u : U) (e : SaExpr) (hu : NumU u = true ∨ Bo
     (hb : build u = some e) :
     parse mysql (render .mysql true e).print = some (render .mysql true e).norm :=
   api_tree_read_back .mysql mysql coreCompat_mysql prefixNoTern_mysql u e hu hb
+
+/-- the standard three-valued interpretation satisfies the hypotheses of the value theorems -/
+theorem stdI_assoc (env : String → Val) :
+    ∀ s, G.assocSym s = true → ∀ a b c : SV,
+      (stdI env).inf s ((stdI env).inf s a b) c = (stdI env).inf s a ((stdI env).inf s b c) := by
+  intro s hs a b c
+  cases s <;> simp [G.assocSym] at hs
+  · show SV.s _ = SV.s _
+    congr 1
+    exact binVal_assoc .add rfl a.scalar b.scalar c.scalar
+  · show SV.s _ = SV.s _
+    congr 1
+    exact binVal_assoc .mul rfl a.scalar b.scalar c.scalar
+  · rfl
+  · show SV.s _ = SV.s _
+    congr 1
+    exact binVal_assoc .and_ rfl a.scalar b.scalar c.scalar
+  · show SV.s _ = SV.s _
+    congr 1
+    exact binVal_assoc .or_ rfl a.scalar b.scalar c.scalar
+
+/-- **api_tree_value_bool** — C01 end to end on the fragment, *including the semantic
+    rewrites*: for every boolean API-call tree `u` (no `is_`/`is_not` between two general
+    operands, see `negate_is_counterexample`), every dialect's compiler, every compatible
+    grammar and every row `env`: the three-valued value the backend computes from the emitted
+    text is the meaning of `u` — whatever grouping, flattening of `and_`/`or_`/`+`/`*`,
+    single-clause collapse and negation rewriting (`~(a < b)` ↦ `a >= b`, …) happened. -/
+theorem api_tree_value_bool (d : Dialect) (g : Grammar) (hg : coreCompat g = true)
+    (hpt : prefixNoTern g) (env : String → Val) (u : U) (e : SaExpr)
+    (hu : BoolU u = true) (hn : noIsGen u = true) (hb : build u = some e) :
+    (parse g (render d true e).print).map (fun t => truth (evalG (stdI env) t).scalar)
+      = some (evalBoolU env u) := by
+  have hcw := build_core_WG u e (Or.inr hu) hb
+  have h1 := backend_value_of_text g (stdI env) (stdI_assoc env) (render d true e)
+    (wb_norm_of_ok g _ (ok_render g (compat_of_bool g hg) hpt d e hcw.1 hcw.2))
+  cases hp : parse g (render d true e).print with
+  | none => rw [hp] at h1; simp at h1
+  | some t =>
+    rw [hp] at h1
+    simp only [Option.map_some, Option.some.injEq] at h1 ⊢
+    rw [h1, evalG_render env d e hcw.1]
+    exact (build_bool_eval env u e hu hn hb).1
+
+/-- the same for numeric trees (value, NULL included) -/
+theorem api_tree_value_num (d : Dialect) (g : Grammar) (hg : coreCompat g = true)
+    (hpt : prefixNoTern g) (env : String → Val) (u : U) (e : SaExpr)
+    (hu : NumU u = true) (hb : build u = some e) :
+    (parse g (render d true e).print).map (fun t => (evalG (stdI env) t).scalar)
+      = some (evalNumU env u) := by
+  have hcw := build_core_WG u e (Or.inl hu) hb
+  have h1 := backend_value_of_text g (stdI env) (stdI_assoc env) (render d true e)
+    (wb_norm_of_ok g _ (ok_render g (compat_of_bool g hg) hpt d e hcw.1 hcw.2))
+  cases hp : parse g (render d true e).print with
+  | none => rw [hp] at h1; simp at h1
+  | some t =>
+    rw [hp] at h1
+    simp only [Option.map_some, Option.some.injEq] at h1 ⊢
+    rw [h1, evalG_render env d e hcw.1]
+    exact build_num_eval env u e hu hb
+
+theorem api_tree_value_bool_sqlite (env : String → Val) (u : U) (e : SaExpr)
+    (hu : BoolU u = true) (hn : noIsGen u = true) (hb : build u = some e) :
+    (parse sqlite (render .sqlite true e).print).map (fun t => truth (evalG (stdI env) t).scalar)
+      = some (evalBoolU env u) :=
+  api_tree_value_bool .sqlite sqlite coreCompat_sqlite prefixNoTern_sqlite env u e hu hn hb
 
 /-- non-vacuity: a tree of the fragment with nesting, flattening, negation and `IS NULL` -/
 example : BoolU (.not_ (.and_ [.bin .eq (.col "a" .int) (.li 1),
